@@ -144,6 +144,20 @@ func (s YAMLSyntax) Set(prefix, path resource.PropertyPath, new yaml.Node) (*yam
 			// The explicit-tag marker belonged to the tag of the replaced node.
 			s.Style &^= yaml.TaggedStyle
 		}
+		if new.Kind != yaml.ScalarNode && s.Style&yaml.FlowStyle == 0 && s.Node.LineComment != "" {
+			// A block collection cannot carry a line comment: yaml.v3 would write it after the next entry of the
+			// parent node.
+			if len(s.Content) == 0 {
+				// An empty collection is always written in flow style, where the comment can stay.
+				s.Style |= yaml.FlowStyle
+			} else {
+				// Keep the comment of the replaced node as the head comment of the first entry.
+				if first := s.Content[0]; first.HeadComment == "" {
+					first.HeadComment = s.Node.LineComment
+				}
+				s.Node.LineComment = ""
+			}
+		}
 		return s.Node, nil
 	}
 
